@@ -33,7 +33,7 @@ ASSUMPTIONS = [
   "direction vectors are non-zero; distances are in units of |vec| as in mj_ray",
 ]
 BUDGET = {
-  "quick": dict(examples=560, seconds=150, workers=16),
+  "quick": dict(examples=560, seconds=420, workers=16),
   "thorough": dict(examples=16000, seconds=1500, workers=16),
 }
 NRAY = 64
